@@ -561,7 +561,8 @@ def size_variations(gen, cid, o):
             x = dict(o)
             x[name] = ["item-%03d" % i for i in range(n)]
             out.append(("list-of-%d" % n, name, x))
-        elif k["k"] == "string" and not s["required"] and name in o:
+        elif k["k"] == "string" and not s["required"] and name in o and name not in ("definition_type", "pattern_version"):
+            # (definition_type / pattern_version name a registered marking type / a pattern-language version)
             n = r.choice([0, 1, 255, 256])
             x = dict(o)
             x[name] = "s" * n
